@@ -46,6 +46,26 @@ class FakeConn:
 
 class AuthAdapter:
     def reset(self, st):
+        # challenges are real os.urandom output, except that every other one starts (and ends) with
+        # bytes that also occur in the protocol's own markers -- nothing may depend on what they are
+        ad = self
+        real_os = bconn.os
+        ad._nrand = 0
+
+        class _Os:
+            def __getattr__(self_o, n):
+                return getattr(real_os, n)
+
+            def urandom(self_o, n):
+                ad._nrand += 1
+                b = real_os.urandom(n)
+                if ad._nrand % 2 == 0 and n >= 4:
+                    mark = b'#CHALLENGE#'
+                    k = ad._nrand // 2
+                    b = mark[k % len(mark):][:2] + b[2:-1] + mark[(k + 3) % len(mark):][:1]
+                return b
+        self._real_os = real_os
+        bconn.os = _Os()
         self.mode, self.kl, self.kc = st['mode'], st['kl'], st['kc']
         self.sess = 1
         self.lres, self.cres = [], []
@@ -98,6 +118,12 @@ class AuthAdapter:
         co.yield_('done')
 
     def close(self):
+        if getattr(self, '_real_os', None) is not None:
+            bconn.os = self._real_os
+            self._real_os = None
+        self._stop_parties()
+
+    def _stop_parties(self):
         for co in self.cos.values():
             try:
                 co.destroy()
@@ -121,6 +147,8 @@ class AuthAdapter:
             return ['failure']
         if m == b'junk':
             return ['junk']
+        if m == b'':
+            return ['empty']
         if len(m) > 256:
             return ['big']
         for k, kb in KEYBYTES.items():
@@ -137,7 +165,7 @@ class AuthAdapter:
             cb = OWN if m[2] == 0 else self.chal[m[2] - 1]
             return hmac.new(KEYBYTES[m[1]], cb, 'md5').digest()
         return {'welcome': bconn.WELCOME, 'failure': bconn.FAILURE, 'junk': b'junk',
-                'big': b'B' * 300}[t]
+                'big': b'B' * 300, 'empty': b''}[t]
 
     def _note_challenges(self, who, before):
         """name the challenge an honest party has just put on the wire"""
@@ -170,7 +198,7 @@ class AuthAdapter:
         elif n == 'HClose':
             (self.c2l if self.mode == 'hostile_client' else self.l2c).closed = True
         elif n == 'NextSession':
-            self.close()
+            self._stop_parties()
             self.sess += 1
             self._begin()
         else:
